@@ -1,11 +1,11 @@
-\* sensitivity: omitting None members must violate ShapeOk (it does not violate RoundTrip: a missing member reads as null)
+\* sensitivity: Dev={DocAttrPanics} must violate Compiles (derive on a struct with a documented, un-renamed field)
 CONSTANTS
-  Dev = {"NoneOmitted"}
+  Dev = {"DocAttrPanics"}
   Modes = {"decl"}
   BaseSeq <- BasesTiny
   WrapSeq <- WrapsTiny
   RenSeq <- RensMC
-  DocSet = {FALSE}
+  DocSet <- DocBoth
   Family = "all"
   MaxFields = 1
   MaxDepth = 3
@@ -15,5 +15,5 @@ CONSTANTS
   GenSizes <- SizesNone
   NVals = 0
 SPECIFICATION Spec
-INVARIANTS ShapeOk
+INVARIANTS Compiles
 CHECK_DEADLOCK FALSE
